@@ -176,6 +176,11 @@ row("generic_real", {"decl": "void {n}(double arg)",
                      "fortran_generic": [{"decl": "(float arg)", "function_suffix": "_float"},
                                          {"decl": "(double arg)", "function_suffix": "_double"}]},
     wraps=CF, doc="generic.yaml GenericReal; docs/fortran.rst")
+row("generic_rank_scalar", {"decl": "void {n}(double factor, int *values, int nvalues)",
+                            "fortran_generic": [{"decl": "(double factor, int *values)", "function_suffix": "_scalar"},
+                                                {"decl": "(float factor, int *values +rank(1))", "function_suffix": "_float_array"},
+                                                {"decl": "(double factor, int *values +rank(1))", "function_suffix": "_array"}]},
+    wraps=CF, doc="generic.yaml AssignValues / SavePointer: entries that differ in rank (each scalar / array pattern gets its own bind(C) interface) and in the type of a by-value scalar")
 row("generic_nosfx", {"decl": "long {n}(long a, long b)",
                       "fortran_generic": [{"decl": "(int a, int b)"}, {"decl": "(long a, long b)"}]},
     wraps=CF, doc="generic.yaml GenericReal2")
